@@ -118,7 +118,14 @@ func closeAndCheck(rep Rep, s *Sys) bool {
 		return false
 	}
 	B := closingBudget(s)
-	fixed, rounds, livelock := s.Converge(B)
+	var fixed, livelock bool
+	var rounds int
+	if s.W != nil && s.W.EventMode {
+		fixed, rounds = s.ConvergeEvents(2 * B)
+		rep.Label("closing:event-driven")
+	} else {
+		fixed, rounds, livelock = s.Converge(B)
+	}
 	rep.Label(fmt.Sprintf("closing-rounds<=%d", ((rounds+4)/5)*5))
 	// premise check: a Failed/Succeeded pod outside the desired set under OrderedReady can never
 	// become Ready and the controller is not obliged to replace it (upstream semantics block
@@ -211,6 +218,7 @@ var c02Opts = func() worldOpts {
 	o.maxOps = 25
 	o.constructed = 9
 	o.orphanRevs = true
+	o.eventMode = true
 	w := opWeights{}
 	for k, v := range defaultWeights {
 		w[k] = v
@@ -271,6 +279,7 @@ func runC12(rep Rep, w World) {
 var c12Opts = func() worldOpts {
 	o := histOpts
 	o.constructed = 0 // reachable states only: everything comes from legitimate transitions
+	o.eventMode = true
 	w := opWeights{}
 	for k, v := range defaultWeights {
 		w[k] = v
